@@ -8,7 +8,7 @@ import sa.rules  # noqa
 V = os.path.dirname(os.path.dirname(os.path.abspath(__file__)))
 checks, na = [], []
 for pid in sorted(PROPS):
-    impl = [r for r in PROPS[pid]['rules'] if r in RULES]
+    impl = [(r if isinstance(r, str) else r[0]) for r in PROPS[pid]['rules'] if (r if isinstance(r, str) else r[0]) in RULES]
     t = TEXT[pid]
     if not impl or t.get('not_applicable'):
         na.append({'property_id': pid, 'reason': t.get('not_applicable') or 'no rule implemented yet for this property'})
